@@ -133,7 +133,7 @@ Proof.
   all: unfold zfirstn, zskipn, len; rewrite firstn_length, skipn_length; lia.
 Qed.
 
-(** ---- canonical integers (5887f54): what INCR / DECR / INCRBY / DECRBY read as a number ---- *)
+(** ---- canonical integers (e4bcfd7): what INCR / DECR / INCRBY / DECRBY read as a number ---- *)
 Lemma digits_acc_head fuel : forall n, 0 < n < 10 ^ Z.of_nat (S fuel) ->
   exists c r, digits_acc (S fuel) n [] = c :: r /\ 49 <= c <= 57.
 Proof.
@@ -771,7 +771,7 @@ Proof.
     + reflexivity.
 Qed.
 
-(** ---- SETRANGE with an empty value (e0df64a): nothing changes, the reply is the current length ---- *)
+(** ---- SETRANGE with an empty value (6988c1c): nothing changes, the reply is the current length ---- *)
 Definition cur_len (d : db) (k : bytes) : frame :=
   match get_entry d k with
   | Some e => match e_val e with VStr b => r_int (len b) | _ => r_wrongtype end
@@ -798,7 +798,7 @@ Proof.
   destruct (get_entry d k) as [e|]; [destruct (e_val e)|]; reflexivity.
 Qed.
 
-(** ---- SET: EX and PX exclude each other (0e6458f), in either order, whatever the two counts are
+(** ---- SET: EX and PX exclude each other (d6b03fb), in either order, whatever the two counts are
     and whatever follows ---- *)
 Definition set_refused (r : setopt) : bool := match r with SetOpts _ _ _ => false | _ => true end.
 Lemma set_opts_ex_px fuel a b tail ttl ex px nx xx :
@@ -827,7 +827,7 @@ Proof.
   split; apply h_set_refused; cbn [length]; apply set_opts_ex_px.
 Qed.
 
-(** ---- SETEX / PSETEX (0bd9e72): a count of 0 is refused and stores nothing ---- *)
+(** ---- SETEX / PSETEX (02eb367): a count of 0 is refused and stores nothing ---- *)
 Lemma setex_zero_refused m now d parts a : nth_arg parts 2 = Some a -> parse_u64 a = Some 0 ->
   h_setex m now d parts = (r_err, d).
 Proof.
